@@ -133,6 +133,19 @@ def run(tier):
             rec_unwrap(rec, ver_enc, ver_spec, rec_wrap(rec, plain_enc, plain_spec, bytes(pz)))   # one bit off
             pz[pos:pos + 10] = ck
             rec_unwrap(rec, ver_enc, ver_spec, rec_wrap(rec, plain_enc, plain_spec, bytes(pz)))   # exactly the key: accepted and blanked
+        # payloads RELATED to the customer key: a copy of its ten bytes in front of the slot, overlapping the slot, behind it; a
+        # periodic key with equal bytes around the slot - unwrapping blanks the slot and nothing else
+        for pos, n in ((12, 40), (10, 30), (3, 26), (20, 60)):
+            key = L.gen_key(r)
+            for ck in (rand(10), b"\x5a" * 10, bytes(range(1, 11))):
+                e1, s1 = B2.dec_cust(key, ck, pos)
+                for at in (0, pos - 10, pos - 3, pos - 1, pos + 10 if pos + 20 <= n else None):
+                    if at is None or at < 0:
+                        continue
+                    p = bytearray(rand(n))
+                    p[at:at + 10] = ck
+                    p[pos:pos + 10] = bytes(10)                  # the slot itself is filled in by the encryptor
+                    rec_unwrap(rec, e1, s1, rec_wrap(rec, e1, s1, bytes(p)))
         # frames a key holder can craft: right marker and length, WRONG checksum field (0000, FFFF, one bit off, CRC of another
         # payload), wrong marker, non-minimal padding; built with the library's cipher only to craft inputs - TLC judges them
         from bec2format.crypto import create_AES128
